@@ -202,6 +202,7 @@ class Differ:
             # One is a comment the other is not:
             return 0
 
+        has_unique = False
         for attr in self.uniqueattrs:
             if not isinstance(attr, str):
                 # If it's actually a sequence of (tag, attr), the tags must
@@ -213,9 +214,13 @@ class Differ:
                 # Ignored attributes have no say in the comparison
                 continue
             if attr in left.attrib or attr in right.attrib:
-                # One of the nodes have a unique attribute, we check only that.
+                # One of the nodes have a unique attribute, we check only those.
                 # If only one node has it, it means they are not the same.
-                return int(left.attrib.get(attr) == right.attrib.get(attr))
+                if left.attrib.get(attr) != right.attrib.get(attr):
+                    return 0
+                has_unique = True
+        if has_unique:
+            return 1
 
         match = self.leaf_ratio(left, right)
         child_ratio = self.child_ratio(left, right)
